@@ -1,5 +1,15 @@
 # property id -> claim text (filled as checks are admitted; everything else is listed under NA with the reason)
 CLAIMS = {
+ 'C04': {'technique': 'static analysis: mutation->notification pairing and ordering on the CFG, subscription-table/marks pairing with argument agreement',
+         'text': 'Decides the structural half of subscriber convergence for all histories at once: every payload write, attachment and removal of a node is announced, in the order that keeps the per-node subscriber '
+                 'marks valid while the announcement walks them; subscription table and per-node marks change together through path-identical +1/-1/remove-all traversals; a removal is never queued behind a set of '
+                 'the same path. Convergence itself, filter enter/leave logic and batching are not decided.',
+         'note': 'Assumes the marks traversal visits exactly the nodes its matcher path selects.'},
+ 'C05': {'technique': 'static analysis: dominance/ordering on the dispatcher CFG, path enumeration over short-circuit guards for the self-delivery test, constant-return check, fast-path selection paths',
+         'text': 'Decides the routing structure for all Messages/sessions at once: the sender-identity field is overwritten before each of the three routing calls; no path delivers to the sender without the '
+                 'reflect-to-self flag; the routing callback returns the session level on every path (one delivery per session); the literal-lookup fast path is entered only for matchers classified unique and '
+                 'looks up the unescaped key. Traversal == brute-force matching and ordering are not decided.',
+         'note': 'Assumes DoTraversal honours the callback return value as documented.'},
  'C06': {'technique': 'static analysis: traversal-callback classification + root check, receiver provenance (reaching definitions over a GetChild/GetParent algebra), guard dominance for privileges, teardown pairing on the CFG',
          'text': 'Decides the ownership structure behind C06 for all command histories at once: every node-mutating or node-collecting traversal is rooted at the session\'s own directory; the receiver of every '
                  'client-reachable DataNode mutator call is derived from the own subtree; subscriber marks are edited under the own session id only; kick and ban/require forwarding are dominated by the matching '
@@ -25,6 +35,6 @@ CLAIMS = {
          'note': 'Assumes const methods with by-value/const-ref parameters do not change what loop tests read; logging and destructor hubs are cut from the recursion graph.'},
 }
 _PENDING = 'check under construction in this session (see DESIGN.md section 4); not claimed until its rule is admitted'
-NA = {pid: _PENDING for pid in ['C01','C03','C04','C05','C08','C10','C11','C12','C14','C15','C16','C17','C18','C19','C20']}
+NA = {pid: _PENDING for pid in ['C01','C03','C08','C10','C11','C12','C14','C15','C16','C17','C18','C19','C20']}
 NA['C09'] = ('refinement of an ideal ordered map over operation histories with live iterators: its mechanisms are co-located with the mutations they protect inside single template functions; '
              'no sound structural necessary condition was found that is not either compiler-enforced or a frozen-fragment match (DESIGN.md section 4, C09)')
